@@ -40,8 +40,31 @@ def item_text(names, nparams, rng, form=None, fixed=None):
         # generic arguments on a LATER segment of a parameter-rooted path (generic associated types, turbofish on an
         # associated fn): they mention other parameters and must be rewritten too
         f"fn h(x: {p0}::Of<{p1}>, y: Option<{p1}::Of<Vec<{p0}>, {p0}>>) -> usize {{ let _k = {p0}::make::<{p1}>(); let _v: <{p0} as m::Tr>::Of<{p1}> = loop {{}}; 0 }}",
+        # qualified EXPRESSION paths whose path part (trait arguments, turbofish of the last segment) mentions parameters; the
+        # traits are not spelled like any parameter pool entry (seeded change C13d: early return on a qualified self)
+        f"fn q(x: {p0}) -> usize {{ let _a = <{p1} as From<{p0}>>::from; let _b = <Option<{p0}>>::map_or::<usize, fn({p0}) -> usize>; "
+        f"let _c = <{p0} as m::Tg<{p1}, [{p0}; 2]>>::tag::<{p1}>; let _d = <({p0}, {p1}) as m::Tg<{p0}>>::K; 0 }}",
+        # parameters inside macro invocations (opaque token streams to syn): open finding F-D28
+        f"fn mc() -> usize {{ let _s = format!(\"{{}}\", core::any::type_name::<{p0}>()); let _v = vec![core::mem::size_of::<{p1}>()]; 0 }}",
     ]
     return forms[form % len(forms)] if form is not None else rng.choice(forms)
+
+
+def macro_param_occurrences(t, names, out):
+    """identifier tokens spelled like a declared type/const parameter inside a macro invocation (`Eq[Macro{…}]` leaves)"""
+    if t[0] != "N":
+        return out
+    _, k, atoms, kids = t
+    if k == "Eq":
+        txt = tref.show(t, 1000000)
+        if "Macro{" in txt:
+            for nm in names:
+                if ("Ident{sym:%s}" % nm) in txt:
+                    out.append(nm)
+        return out
+    for x in kids:
+        macro_param_occurrences(x, names, out)
+    return out
 
 
 def independent_rename(t, ren):
@@ -149,7 +172,7 @@ def run(tier, seed, replay=None):
         bi = rng.randrange(nb)
         base = copy.deepcopy(plan)
         m = base.blocks()[bi][2]
-        form = rng.randrange(6)
+        form = rng.randrange(8)
         for v in range(4):
             q = copy.deepcopy(base)
             mm = q.blocks()[bi][2]
@@ -253,6 +276,17 @@ def run(tier, seed, replay=None):
                         "first_difference": list(tref.first_diff(want, got) or [])[-6:], "renaming": ren}
         if not fail and not idem:
             fail = {"clause": "canonicalising twice changes the block"}
+        if not fail and not dead_collision:
+            # occurrences inside macro invocations: token streams that syn does not parse; the resolver never looks into them
+            occ = macro_param_occurrences(raw, [a for (k1, a), (_, b) in zip(decl_raw, decl_can) if k1 != "lt" and a != b], [])
+            still = macro_param_occurrences(can, occ, []) if occ else []
+            if still:
+                rep.count("macro-body-occurrence")
+                if any(f_["id"] == "F-D28" for f_ in C.findings_for(PROP)):
+                    rep.known("F-D28")
+                else:
+                    fail = {"clause": "a parameter occurrence inside a macro invocation of an item body is not rewritten (the generics are)",
+                            "parameters": sorted(set(still))}
         if fail and fail["clause"].startswith("the canonical block is not") and qself_capture(raw, ren) and any(f_["id"] == "F-C13-qualified-path-trait-capture" for f_ in C.findings_for(PROP)):
             rep.known("F-C13-qualified-path-trait-capture")
             fail = None
@@ -265,11 +299,17 @@ def run(tier, seed, replay=None):
         # parameters that occur nowhere are never indexed and keep the user's spelling: not part of the comparison
         decls = sorted(tref.show(p_, 100000) for p_, (_, nm), (_, a) in zip(gen[3][1][3], decl_can, decl_raw) if nm.startswith(PARAM_PREFIX) and a not in dead)
         hdr = (can[3][4], can[3][5], gen[3][3], can[3][6], tref.N("Decls", decls))
-        headers.setdefault(grp, []).append((v, hdr, text, qself_capture(raw, ren)))
+        headers.setdefault(grp, []).append((v, hdr, text, qself_capture(raw, ren),
+                                            bool(macro_param_occurrences(raw, [a for (k1, a) in decl_raw if k1 != "lt"], []))))
     for grp, lst in headers.items():
         ref = lst[0]
-        for v, hdr, text, cap in lst[1:]:
+        for v, hdr, text, cap, mac in lst[1:]:
             rep.count("header-variants-compared")
+            if hdr != ref[1] and (mac or ref[4]) and any(f_["id"] == "F-D28" for f_ in C.findings_for(PROP)):
+                # the bodies differ only inside macro invocations (F-D28: never rewritten, so the user's spelling stays)
+                if tuple(blank_macros(x) for x in hdr) == tuple(blank_macros(x) for x in ref[1]):
+                    rep.known("F-D28")
+                    continue
             if hdr != ref[1] and (cap or ref[3]) and any(f_["id"] == "F-C13-qualified-path-trait-capture" for f_ in C.findings_for(PROP)):
                 rep.known("F-C13-qualified-path-trait-capture")
                 continue
@@ -279,6 +319,15 @@ def run(tier, seed, replay=None):
                                             "first_difference": list(tref.first_diff(tref.N("H", [], list(ref[1])), tref.N("H", [], list(hdr))) or [])[-5:]})
                 break
     return rep.finish()
+
+
+def blank_macros(t):
+    if t[0] != "N":
+        return t
+    _, k, atoms, kids = t
+    if k == "Eq" and "Macro{" in tref.show(t, 1000000):
+        return ("N", "Eq", ["<macro>"], [])
+    return ("N", k, atoms, [blank_macros(x) for x in kids])
 
 
 def qself_capture(t, ren):
